@@ -261,6 +261,10 @@ def run(ctx):
     void_agreement(ctx)
     from . import wslint
     wslint.run(ctx, "R11.8")
+    # R11.9: the etree walker splits every attribute key with the Clark-notation pattern; a plain name the builder stored
+    # verbatim that begins with `{..}` comes out as a namespaced (possibly empty) name, which Lint rejects
+    from .c04 import representation_limits
+    representation_limits(ctx, None, "R11.9")
 
 
 def void_agreement(ctx):
